@@ -187,7 +187,7 @@ def cbmc_job(unit, cfile, outdir, tag, defines, tier, fn=None):
     tmo = unit.get('timeout', 300 if tier == 'quick' else 1800)
     a = os.path.join(outdir, '%s.%s.a.gb' % (name, tag))
     b = os.path.join(outdir, '%s.%s.b.gb' % (name, tag))
-    cmd = ['goto-cc', '--function', entry, '-I', INCLUDE, '-DBT_CBMC'] + ['-D' + d for d in defines + unit.get('defines', [])]
+    cmd = ['goto-cc', '--function', entry, '-I', INCLUDE, '-DBT_CBMC'] + ['-D' + d for d in defines + unit.get('defines', []) + unit.get(tier + '_defines', [])]
     if unit.get('arch32'):
         cmd.append('-m32')
     cmd += [cfile, '-o', a]
